@@ -1,8 +1,20 @@
-"""C21 — bounded run-time contract check (see checks/C21_bounded.py for the contract and scope); proof kernel: see DESIGN §5 C21."""
-from vlib.thin import run_bounded_only
+"""C21 — generated and truncated names are bounded, deterministic and unique: length bounds, memoisation and the choice of the
+applicable limit under proof; naming conventions / uniqueness within a statement as the bounded complement."""
+import importlib
+import contracts.naming  # noqa: F401
+from pyvc.contract import FUNCS
+from vlib.proof import run_proofs
 
-LEVEL = "exploration"
+LEVEL = "proof"
+KEYS = [k for k, c in FUNCS.items() if "C21" in c.props and c.proof and not c.abstract]
 
 
 def run(run, tier, seed, args):
-    run_bounded_only(run, "C21", tier, seed)
+    run_proofs(run, KEYS, tier, update_baseline=args.update_baseline, source_root=args.source_root)
+    if not args.source_root:
+        importlib.import_module("checks.C21_bounded").bounded(run, tier, seed)
+    run.assumptions += [
+        "strings are modelled by length only (len, slicing, concatenation; hex(n)[2:] has at most 5 digits below 16**5); md5_hex is a pure function returning 32 characters; name.apply_map(anon_map) is pure",
+        "preconditions: label_length >= 6, fewer than 16**5 truncated names per class, max_ >= 8 (for max_ < 8 the bound fails: known finding in the bounded complement), _alembic_quote False for the length clause",
+        "uniqueness of truncated names within a statement (distinct counters) and naming-convention expansion are in the bounded complement only",
+    ]
